@@ -58,7 +58,13 @@ def _plan(draw, max_items):
             it[draw(st.sampled_from(["k", "r", "0", "", "k0x", "1"]))] = draw(st.sampled_from([None, 3, "u"]))
         right.append(it)
     plan = {"op": op, "by": by, "left": left, "right": right}
-    if op != "aggregate" and nl and draw(st.integers(0, 4)) == 0:
+    if op != "aggregate" and nr and draw(st.integers(0, 3)) == 0:
+        edits = []
+        for _ in range(draw(st.integers(1, 2))):
+            (_, rn), kd = draw(st.sampled_from(list(zip(by, kinds))))
+            edits.append([draw(st.integers(0, nr - 1)), rn, draw(st.sampled_from(KV[kd])), draw(st.booleans())])
+        plan["edits"] = edits
+    if op != "aggregate" and nl and "edits" not in plan and draw(st.integers(0, 4)) == 0:
         plan["alias"] = draw(st.integers(1, min(2, nl)))     # the first items occur a second time at the end (same dict objects)
     if op == "aggregate" and nl and draw(st.booleans()):
         # history: aggregate, derive a list without calling group_by again, aggregate the derived list
@@ -131,6 +137,26 @@ def check(plan, ctx):
         plan = dict(plan, left=plan["left"] + plan["left"][:plan["alias"]])
         ctx.cls("aliased_left_items")
     R = di.ListOfDicts([dict(x) for x in plan["right"]])
+    _check_join(plan, L, R, ctx)
+    if plan.get("edits") and plan["right"]:
+        # history: the same right-hand list object is edited in place (length unchanged) and used in a second join
+        p2 = dict(plan, right=[dict(x) for x in plan["right"]])
+        for i, key, val, whole in plan["edits"]:
+            i %= len(p2["right"])
+            if whole:
+                new = dict(p2["right"][i]); new[key] = val
+                p2["right"][i] = new
+                R[i] = dict(new)                               # item replaced
+            else:
+                p2["right"][i][key] = val
+                R[i][key] = val                                # entry of the same item object edited
+        L2 = di.ListOfDicts([dict(x) for x in p2["left"]])
+        ctx.cls("joined_again_after_in_place_edit_of_the_right_list")
+        _check_join(p2, L2, R, ctx, phase="second join after an in-place edit of the right-hand list: ")
+
+
+def _check_join(plan, L, R, ctx, phase=""):
+    op = plan["op"]
     by2 = [b for _, b in plan["by"]]
     match = _first_match(plan)
     out = ctx.call(f"{op}_join", getattr(L, f"{op}_join"), R, *_by_arg(plan))
@@ -161,7 +187,7 @@ def check(plan, ctx):
         return _check_full(plan, out)
     got = [dict(x) for x in out]
     if [_typed(x) for x in got] != [_typed(x) for x in want]:
-        raise Violation(f"{op}_join differs from the first-match reference", got=got, want=want)
+        raise Violation(f"{phase}{op}_join differs from the first-match reference", got=got, want=want)
     if op in ("semi", "anti") and [dict(x) for x in L] != plan["left"]:
         raise Violation(f"{op}_join changed the items of its receiver")
 
@@ -255,6 +281,12 @@ def _check_aggregate_once(by, items, grouped, ctx, phase):
     got = [dict(x) for x in out]
     if [_typed(x) for x in got] != [_typed(x) for x in want]:
         raise Violation(phase + "aggregate differs from the dict-grouping reference", got=got, want=want)
+    # no summary functions at all: still one item per group, in key order with None last
+    bare = ctx.call(phase + "aggregate()", lambda: grouped.aggregate())
+    want0 = [{k: v for k, v in d.items() if k in by} for d in want]
+    if [_typed(dict(x)) for x in bare] != [_typed(x) for x in want0]:
+        raise Violation(phase + "aggregate() without summary functions is not one item per group in key order",
+                        got=[dict(x) for x in bare], want=want0)
     if [dict(x) for x in L] != items:
         raise Violation(phase + "aggregate changed the items of its receiver")
     ctx.cls(f"groups_{min(len(order), 4)}")
